@@ -52,15 +52,79 @@ End Model.
 Lemma thr_of_thr H V MH MV i : thr_of H V MH MV i = thr H V MH MV.
 Proof. unfold thr_of, thr. cbv zeta. replace (eh i - H + (MH - eh i)) with (MH - H) by lia. replace (ev i - V + (MV - ev i)) with (MV - V) by lia. reflexivity. Qed.
 
-(* the executable instance: first-occurrence order *)
+(* ---- the int64 threshold: `threshold := hDiffIndex * hDiffIndex * vDiffIndex` is computed in int64 and wraps when
+   2*(MH-H) + (MV-V) >= 63 (e.g. one zoom-32 ID merged to target zoom 0). `merge` above compares with the mathematical product
+   (all theorems about the specification are proved of it); `merge64` is the code as it runs: two wrapping multiplications.
+   `merge64_merge` below: they are the same function whenever 2*max(0,MH-H) + max(0,MV-V) <= 62. ---- *)
+Definition wrap64 (z : Z) : Z := (z + 2 ^ 63) mod 2 ^ 64 - 2 ^ 63.
+Definition thr64 (H V MH MV : Z) : Z :=
+  let a := 2 ^ (MH - H) in let b := 2 ^ (MV - V) in wrap64 (wrap64 (a * a) * b).
+Definition dense64 (H V MH MV : Z) (el : list eid) (T : eid) : bool :=
+  Z.of_nat (List.length (nodupb eid_eqb (flat_map (units MH MV) (group H V el T)))) =? thr64 H V MH MV.
+Definition merge64 (ord : list eid -> list eid) (H V : Z) (ids : list eid) : list eid :=
+  let MH := maxz eh ids in let MV := maxz ev ids in
+  let el := filter (eligible H V) ids in
+  let rest := filter (fun i => negb (eligible H V i)) ids in
+  let targets := ord (nodupb eid_eqb (map (target H V) el)) in
+  let out := flat_map (fun T => if dense64 H V MH MV el T then [T] else group H V el T) targets in
+  ord (nodupb eid_eqb (rest ++ out)).
+(* the threshold exponent stays below 63 *)
+Definition fits64 (H V : Z) (ids : list eid) : Prop := 2 * Z.max 0 (maxz eh ids - H) + Z.max 0 (maxz ev ids - V) <= 62.
+
+Lemma wrap64_small z : - 2 ^ 63 <= z < 2 ^ 63 -> wrap64 z = z.
+Proof. intros Hz. unfold wrap64. rewrite Z.mod_small; lia. Qed.
+(* a multiple of 2^63 wraps to 0 or to -2^63 *)
+Lemma wrap64_mult63 m : wrap64 (2 ^ 63 * m) = 2 ^ 63 * ((m + 1) mod 2 - 1).
+Proof.
+  unfold wrap64. replace (2 ^ 63 * m + 2 ^ 63) with (2 ^ 63 * (m + 1)) by ring.
+  change (2 ^ 64) with (2 ^ 63 * 2). rewrite Z.mul_mod_distr_l by lia. ring.
+Qed.
+Lemma thr64_thr H V MH MV : 2 * Z.max 0 (MH - H) + Z.max 0 (MV - V) <= 62 -> thr64 H V MH MV = thr H V MH MV.
+Proof.
+  intros F. unfold thr64, thr. cbv zeta.
+  destruct (Z.ltb_spec (MH - H) 0) as [Nh|Ph].
+  - rewrite (Z.pow_neg_r 2 (MH - H)) by exact Nh. cbn. reflexivity.
+  - destruct (Z.ltb_spec (MV - V) 0) as [Nv|Pv].
+    + rewrite (Z.pow_neg_r 2 (MV - V)) by exact Nv. rewrite !Z.mul_0_r. reflexivity.
+    + assert (E1 : 2 ^ (MH - H) * 2 ^ (MH - H) = 2 ^ (2 * (MH - H))) by (rewrite <- Z.pow_add_r by lia; f_equal; lia).
+      assert (E2 : 2 ^ (2 * (MH - H)) * 2 ^ (MV - V) = 2 ^ (2 * (MH - H) + (MV - V))) by (rewrite <- Z.pow_add_r by lia; reflexivity).
+      assert (B : forall k, 0 <= k <= 62 -> - 2 ^ 63 <= 2 ^ k < 2 ^ 63).
+      { intros k Hk. pose proof (Z.pow_pos_nonneg 2 k ltac:(lia) ltac:(lia)). assert (2 ^ k <= 2 ^ 62) by (apply Z.pow_le_mono_r; lia). lia. }
+      rewrite E1, (wrap64_small (2 ^ (2 * (MH - H)))) by (apply B; lia). rewrite E2, wrap64_small by (apply B; lia). reflexivity.
+Qed.
+(* beyond the bound the wrapped threshold is 0 or -2^63: the count test then never succeeds for a non-empty group *)
+Lemma thr64_big H V MH MV : 0 <= MH - H -> 0 <= MV - V -> 63 <= 2 * (MH - H) + (MV - V) -> thr64 H V MH MV <= 0.
+Proof.
+  intros Ph Pv F. unfold thr64. cbv zeta.
+  assert (E1 : 2 ^ (MH - H) * 2 ^ (MH - H) = 2 ^ (2 * (MH - H))) by (rewrite <- Z.pow_add_r by lia; f_equal; lia).
+  assert (M : forall m, wrap64 (2 ^ 63 * m) <= 0).
+  { intros m. rewrite wrap64_mult63. pose proof (Z.mod_pos_bound (m + 1) 2 ltac:(lia)). nia. }
+  rewrite E1. destruct (Z.leb_spec 63 (2 * (MH - H))) as [Big|Small].
+  - replace (2 ^ (2 * (MH - H))) with (2 ^ 63 * 2 ^ (2 * (MH - H) - 63)) by (rewrite <- Z.pow_add_r by lia; f_equal; lia).
+    rewrite wrap64_mult63. rewrite <- Z.mul_assoc. apply M.
+  - rewrite (wrap64_small (2 ^ (2 * (MH - H)))).
+    + rewrite <- Z.pow_add_r by lia.
+      replace (2 ^ (2 * (MH - H) + (MV - V))) with (2 ^ 63 * 2 ^ (2 * (MH - H) + (MV - V) - 63)) by (rewrite <- Z.pow_add_r by lia; f_equal; lia).
+      apply M.
+    + pose proof (Z.pow_pos_nonneg 2 (2 * (MH - H)) ltac:(lia) ltac:(lia)).
+      assert (2 ^ (2 * (MH - H)) <= 2 ^ 62) by (apply Z.pow_le_mono_r; lia). lia.
+Qed.
+Theorem merge64_merge ord H V ids : fits64 H V ids -> merge64 ord H V ids = merge ord H V ids.
+Proof.
+  intros F. unfold merge64, merge. cbv zeta. do 3 f_equal. apply flat_map_ext. intros T.
+  unfold dense64, dense. now rewrite (thr64_thr H V _ _ F).
+Qed.
+
+(* the executable instances: first-occurrence order *)
 Definition merge_x (H V : Z) (ids : list eid) : list eid := merge (fun l => l) H V ids.
+Definition merge_x64 (H V : Z) (ids : list eid) : list eid := merge64 (fun l => l) H V ids.
 
 (* ---- string-level API ---- *)
 (* MergeExtendedSpatialIds: zoom checks, every ID parsed by object.NewExtendedSpatialID (error: stop), merge, IDs printed by ID() *)
 Definition merge_ext_api (ids : list string) (H V : Z) : result (list string) :=
   if check_zoom H && check_zoom V then
     match parse_all ids with
-    | Some l => Ok (map print_eid (merge_x H V l))
+    | Some l => Ok (map print_eid (merge_x64 H V l))
     | None => Err
     end
   else Err.
@@ -77,15 +141,16 @@ Definition merge_sid_api (ids : list string) (z : Z) : result (list string) :=
   end.
 
 (* ---- work bound shared with the harness: the function enumerates sum_i 4^(MH-h_i) * 2^(MV-v_i) unit cells (documented as
-   exponential in the zoom spread); cases beyond the bound are not executed on either side ---- *)
+   exponential in the zoom spread); a case beyond the bound is executed on neither side and reported under class "skipped" ---- *)
 Definition work (H V : Z) (l : list eid) : Z :=
   let MH := maxz eh l in let MV := maxz ev l in
   fold_left (fun s i => if eligible H V i then s + 4 ^ (MH - eh i) * 2 ^ (MV - ev i) else s) l 0.
 Definition small_fields (i : eid) : bool :=
   (Z.abs (ex i) <? 2 ^ 40) && (Z.abs (ey i) <? 2 ^ 40) && (Z.abs (ef i) <? 2 ^ 40) && (Z.abs (eh i) <? 64) && (Z.abs (ev i) <? 64).
-(* besides the cells the function enumerates, the checker enumerates the 4^(MH-H) * 2^(MV-V) unit cells of a target voxel *)
+(* the bound is the function's own enumeration (`work`) and the exactness of int64(math.Pow(2, d)) (d <= 40 here; zooms 0..35 give
+   d <= 35); the distance between the inputs and the target is otherwise free *)
 Definition within_bound (H V : Z) (l : list eid) : bool :=
-  forallb small_fields l && (2 * Z.max 0 (maxz eh l - H) + Z.max 0 (maxz ev l - V) <=? 12) && (work H V l <=? 2000).
+  forallb small_fields l && (maxz eh l - H <=? 40) && (maxz ev l - V <=? 40) && (work H V l <=? 2000).
 
 Example merge_D2 : merge_x 1 0 [mk 1 0 0 1 (-1); mk 1 0 0 1 0] = [mk 1 0 0 1 (-1); mk 1 0 0 1 0].
 Proof. vm_compute. reflexivity. Qed.
@@ -94,3 +159,5 @@ Proof. vm_compute. reflexivity. Qed.
 Example merge_32 : merge_x 1 1 [mk 2 0 0 2 0; mk 2 0 1 2 0; mk 2 1 0 2 0; mk 2 1 1 2 0; mk 2 0 0 2 1; mk 2 0 1 2 1; mk 2 1 0 2 1; mk 2 1 1 2 1; mk 3 7 7 1 0]
   = [mk 1 0 0 1 0; mk 3 7 7 1 0].
 Proof. vm_compute. reflexivity. Qed.
+Example merge_wrap : merge_x64 0 0 [mk 32 0 0 0 0] = [mk 32 0 0 0 0] /\ thr64 0 0 32 0 = 0 /\ thr64 0 0 31 1 = - 2 ^ 63.
+Proof. vm_compute. repeat split; reflexivity. Qed.
